@@ -199,7 +199,9 @@ func (g Getter) JS() string  { return fmt.Sprintf("mkg(%d,%d,%d,%d,%d)", g.id, g
 func (g Getter) Coq() string { return fmt.Sprintf("(VGet %d %d %d %d %d)", g.id, g.p, g.fx, g.j, g.n) }
 
 type Arg struct {
-	kind byte // 'v' value, 'a' array literal, 'c' callback, 't' marker object, 'r' the receiver itself
+	kind byte // 'v' value, 'a' array literal, 'c' callback, 't' marker object, 'r' the receiver itself, 'o' converting object
+	oid, op int  // 'o': an object whose valueOf/toString logs [5; oid] and returns op ...
+	othrow  bool // ... or throws
 	v    V
 	a    []*V
 	g    map[int]Getter // 'a': elements that are counting getters
@@ -245,6 +247,8 @@ func (a Arg) JS() string {
 		return "cb"
 	case 'r':
 		return "R"
+	case 'o':
+		return fmt.Sprintf("mko(%d,(%d),%s)", a.oid, a.op, Cbool(a.othrow))
 	}
 	return "T"
 }
@@ -268,6 +272,8 @@ func (a Arg) Coq() string {
 		return "ACb"
 	case 'r':
 		return "AR"
+	case 'o':
+		return fmt.Sprintf("(AO %d %s %s)", a.oid, Cz(int64(a.op)), Cbool(a.othrow))
 	}
 	return "AT"
 }
@@ -520,6 +526,7 @@ function mkg(id,p,fx,j,n){ var g=function(){ LOG+="8,i"+id+";";
   if(fx===1){var A=AS[j];A[A.length]=n}else if(fx===2){AS[j].length=n}else if(fx===3){R[R.length]=n}else if(fx===4){R.length=n}
   return p };
  g.tok="G"+id+"_"+p+"_"+fx+"_"+j+"_"+n; return g; }
+function mko(id,p,t){ var f=function(){ LOG+="5,i"+id+";"; if(t)throw new URIError("vo"); return p }; return {valueOf:f,toString:f}; }
 function mks(id){ return function(v){ LOG+="7,i"+id+","+enc(v)+";" } }
 var HOP=Object.prototype.hasOwnProperty;
 function enc(v){
